@@ -524,6 +524,42 @@ func init() {
 		fmt.Fprintf(&sb, "def defaultFieldParams : List (Nat × List Nat) := [%s]\n", strings.Join(defRows, ", "))
 		fmt.Fprintf(&sb, "def orderByFuncs : List (Nat × Nat) := [%s]\n", strings.Join(obRows, ", "))
 
+		// ---------------- aggregation/topn.go: the comparison of two rows
+		fsetTN, tn, err := ParseFile(repo, "aggregation/topn.go")
+		if err != nil {
+			return "", err
+		}
+		less := FindFunc(tn, "topNHeap", "Less")
+		var lessSteps []string
+		if less != nil {
+			var walk func(stmts []ast.Stmt, depth string)
+			walk = func(stmts []ast.Stmt, depth string) {
+				for _, st := range stmts {
+					switch x := st.(type) {
+					case *ast.RangeStmt:
+						lessSteps = append(lessSteps, depth+"range "+c12Src(fsetTN, x.X))
+						walk(x.Body.List, depth+"  ")
+					case *ast.IfStmt:
+						lessSteps = append(lessSteps, depth+"if "+c12Src(fsetTN, x.Cond))
+						walk(x.Body.List, depth+"  ")
+						if x.Else != nil {
+							lessSteps = append(lessSteps, depth+"else")
+							switch e := x.Else.(type) {
+							case *ast.BlockStmt:
+								walk(e.List, depth+"  ")
+							case *ast.IfStmt:
+								walk([]ast.Stmt{e}, depth+"  ")
+							}
+						}
+					default:
+						lessSteps = append(lessSteps, depth+c12Src(fsetTN, st))
+					}
+				}
+			}
+			walk(less.Body.List, "")
+		}
+		fmt.Fprintf(&sb, "/-- topNHeap.Less, statement by statement (indent = nesting) -/\ndef topnLessSteps : List String := %s\n", LeanStrList(lessSteps))
+
 		// ---------------- leaf_reduce_context.go: receiver index
 		fsetLR, lr, err := ParseFile(repo, "query/context/leaf_reduce_context.go")
 		if err != nil {
